@@ -404,3 +404,94 @@ package js_ast
 //@   ensures tagged-template-unknown: is(expr, *ETemplate) && expr.(*ETemplate).TagOrNil.Data != nil ==> result == PrimitiveUnknown
 //@   ensures unknown-kinds: result != PrimitiveUnknown ==> is(expr, *EAnnotation) || is(expr, *EInlinedEnum) || is(expr, *ENull) || is(expr, *EUndefined) ||
 //@       is(expr, *EBoolean) || is(expr, *ENumber) || is(expr, *EString) || is(expr, *EBigInt) || is(expr, *ETemplate) || is(expr, *EIf) || is(expr, *EUnary) || is(expr, *EBinary)
+
+// ----------------------------------------------------------------------------------------------
+// C03: compile-time ToBoolean (ECMA-262 7.1.2) used to fold conditions, `!`, `&&`/`||` and if-statements.
+// When ok is reported, `boolean` must be the JavaScript truthiness of EVERY evaluation of the expression:
+//   undefined, null -> false;  Boolean -> itself;  Number -> false for +0, -0, NaN, else true;  String -> false iff
+//   empty;  Object (functions, arrows, regexps, object/array/class literals) -> true;
+//   !x -> the negation of x;  (a, b) -> b;  a || b is known truthy only if b is known truthy;  a && b is known
+//   falsy only if b is known falsy (13.13: the value of a logical expression is one of its operands);  void x is
+//   undefined;  typeof x is a non-empty string.
+// And NoSideEffects may be reported only for forms whose evaluation runs no code.
+//@ spec func tb(x Expr) bool = proj(0, ToBooleanWithSideEffects(x.Data))
+//@ spec func tbEffects(x Expr) SideEffects = proj(1, ToBooleanWithSideEffects(x.Data))
+//@ spec func tbOK(x Expr) bool = proj(2, ToBooleanWithSideEffects(x.Data))
+
+//@ func ToBooleanWithSideEffects
+//@   arith int
+//@   prop C03
+//@   opt heappure
+//@   modifies nothing
+//@   ensures nullish-is-false: (is(data, *ENull) || is(data, *EUndefined)) ==> result2 && !result0 && result1 == NoSideEffects
+//@   ensures boolean-literal: is(data, *EBoolean) && data.(*EBoolean) != nil ==> result2 && result0 == data.(*EBoolean).Value
+//@   ensures number-literal: is(data, *ENumber) && data.(*ENumber) != nil ==> result2 &&
+//@       result0 == !(fp.isZero(data.(*ENumber).Value) || fp.isNaN(data.(*ENumber).Value))
+//@   ensures string-literal: is(data, *EString) && data.(*EString) != nil ==> result2 && result0 == (len(data.(*EString).Value) > 0)
+//@   ensures objects-are-truthy: (is(data, *EFunction) || is(data, *EArrow) || is(data, *ERegExp) || is(data, *EObject) || is(data, *EArray) || is(data, *EClass)) ==> result2 && result0
+//@   ensures literals-with-code-have-effects: (is(data, *EObject) || is(data, *EArray) || is(data, *EClass)) ==> result1 == CouldHaveSideEffects
+//@   ensures not: is(data, *EUnary) && data.(*EUnary).Op == UnOpNot && result2 ==>
+//@       tbOK(data.(*EUnary).Value) && result0 == !tb(data.(*EUnary).Value) && result1 == tbEffects(data.(*EUnary).Value)
+//@   ensures void-is-false: is(data, *EUnary) && data.(*EUnary).Op == UnOpVoid ==> result2 && !result0 && result1 == CouldHaveSideEffects
+//@   ensures typeof-is-truthy: is(data, *EUnary) && data.(*EUnary).Op == UnOpTypeof ==> result2 && result0 &&
+//@       (result1 == NoSideEffects ==> data.(*EUnary).WasOriginallyTypeofIdentifier)
+//@   ensures other-unary-unknown: is(data, *EUnary) && data.(*EUnary).Op != UnOpNot && data.(*EUnary).Op != UnOpVoid && data.(*EUnary).Op != UnOpTypeof ==> !result2
+//@   ensures logical-or: is(data, *EBinary) && data.(*EBinary).Op == BinOpLogicalOr && result2 ==>
+//@       result0 && tbOK(data.(*EBinary).Right) && tb(data.(*EBinary).Right) && result1 == CouldHaveSideEffects
+//@   ensures logical-and: is(data, *EBinary) && data.(*EBinary).Op == BinOpLogicalAnd && result2 ==>
+//@       !result0 && tbOK(data.(*EBinary).Right) && !tb(data.(*EBinary).Right) && result1 == CouldHaveSideEffects
+//@   ensures comma: is(data, *EBinary) && data.(*EBinary).Op == BinOpComma && result2 ==>
+//@       tbOK(data.(*EBinary).Right) && result0 == tb(data.(*EBinary).Right) && result1 == CouldHaveSideEffects
+//@   ensures other-binary-unknown: is(data, *EBinary) && data.(*EBinary).Op != BinOpLogicalOr && data.(*EBinary).Op != BinOpLogicalAnd && data.(*EBinary).Op != BinOpComma ==> !result2
+//@   ensures wrappers: (is(data, *EInlinedEnum) ==> result2 == tbOK(data.(*EInlinedEnum).Value) && result0 == tb(data.(*EInlinedEnum).Value) && result1 == tbEffects(data.(*EInlinedEnum).Value)) &&
+//@       (is(data, *EAnnotation) ==> result2 == tbOK(data.(*EAnnotation).Value) && result0 == tb(data.(*EAnnotation).Value))
+//@   ensures unknown-kinds: result2 ==> is(data, *EAnnotation) || is(data, *EInlinedEnum) || is(data, *ENull) || is(data, *EUndefined) || is(data, *EBoolean) ||
+//@       is(data, *ENumber) || is(data, *EBigInt) || is(data, *EString) || is(data, *EFunction) || is(data, *EArrow) || is(data, *ERegExp) ||
+//@       is(data, *EObject) || is(data, *EArray) || is(data, *EClass) || is(data, *EUnary) || is(data, *EBinary)
+
+// C03 / C05: compile-time "is this value null or undefined?" (drives ?? and ?. folding and lowering). When ok is
+// reported, result0 must hold for every evaluation: only null, undefined and `void x` are nullish; every
+// literal of another type, every object/function/class literal and every arithmetic, comparison, typeof, !,
+// delete result is not. NoSideEffects only for forms whose evaluation runs no code.
+//@ func ToNullOrUndefinedWithSideEffects
+//@   arith int
+//@   prop C03
+//@   opt heappure
+//@   modifies nothing
+//@   ensures nullish-literals: (is(data, *ENull) || is(data, *EUndefined)) ==> result2 && result0 && result1 == NoSideEffects
+//@   ensures other-literals: (is(data, *EBoolean) || is(data, *ENumber) || is(data, *EString) || is(data, *ERegExp) || is(data, *EFunction) || is(data, *EArrow) || is(data, *EBigInt)) ==>
+//@       result2 && !result0 && result1 == NoSideEffects
+//@   ensures object-literals: (is(data, *EObject) || is(data, *EArray) || is(data, *EClass)) ==> result2 && !result0 && result1 == CouldHaveSideEffects
+//@   ensures void-is-undefined: is(data, *EUnary) && data.(*EUnary).Op == UnOpVoid ==> result2 && result0 && result1 == CouldHaveSideEffects
+//@   ensures other-unary-never-nullish: is(data, *EUnary) && data.(*EUnary).Op != UnOpVoid && result2 ==> !result0 &&
+//@       (result1 == NoSideEffects ==> data.(*EUnary).Op == UnOpTypeof && data.(*EUnary).WasOriginallyTypeofIdentifier)
+//@   ensures binary-never-nullish: is(data, *EBinary) && data.(*EBinary).Op != BinOpComma && result2 ==> !result0 && result1 == CouldHaveSideEffects &&
+//@       data.(*EBinary).Op != BinOpLogicalOr && data.(*EBinary).Op != BinOpLogicalAnd && data.(*EBinary).Op != BinOpNullishCoalescing && data.(*EBinary).Op != BinOpAssign
+//@   ensures comma-is-its-right-operand: is(data, *EBinary) && data.(*EBinary).Op == BinOpComma && result2 ==>
+//@       proj(2, ToNullOrUndefinedWithSideEffects(data.(*EBinary).Right.Data)) && result0 == proj(0, ToNullOrUndefinedWithSideEffects(data.(*EBinary).Right.Data)) && result1 == CouldHaveSideEffects
+//@   ensures unknown-kinds: result2 ==> is(data, *EAnnotation) || is(data, *EInlinedEnum) || is(data, *ENull) || is(data, *EUndefined) || is(data, *EBoolean) ||
+//@       is(data, *ENumber) || is(data, *EBigInt) || is(data, *EString) || is(data, *EFunction) || is(data, *EArrow) || is(data, *ERegExp) ||
+//@       is(data, *EObject) || is(data, *EArray) || is(data, *EClass) || is(data, *EUnary) || is(data, *EBinary)
+
+// C03: compile-time == / === on literals (ECMA-262 7.2.13 IsLooselyEqual, 7.2.14 IsStrictlyEqual). When ok is
+// reported the answer must be the JavaScript answer:
+//   same type: null/undefined equal themselves; booleans by value; numbers by Number::equal (NaN unequal to
+//   everything, +0 equal to -0);  different types: strict equality is false;  loosely, null == undefined, and a
+//   boolean is compared as the number 1 or 0; nothing but null/undefined is loosely equal to null/undefined.
+//@ func CheckEqualityIfNoSideEffects
+//@   arith int
+//@   prop C03
+//@   opt heappure
+//@   modifies nothing
+//@   ensures null-null: (is(left, *ENull) && is(right, *ENull)) || (is(left, *EUndefined) && is(right, *EUndefined)) ==> result1 && result0
+//@   ensures null-undefined: (is(left, *ENull) && is(right, *EUndefined)) || (is(left, *EUndefined) && is(right, *ENull)) ==> result1 && result0 == (kind == LooseEquality)
+//@   ensures booleans: is(left, *EBoolean) && is(right, *EBoolean) && left.(*EBoolean) != nil && right.(*EBoolean) != nil ==> result1 && result0 == (left.(*EBoolean).Value == right.(*EBoolean).Value)
+//@   ensures numbers: is(left, *ENumber) && is(right, *ENumber) && left.(*ENumber) != nil && right.(*ENumber) != nil ==> result1 && result0 == fp.eq(left.(*ENumber).Value, right.(*ENumber).Value)
+//@   ensures boolean-number-strict: ((is(left, *EBoolean) && is(right, *ENumber)) || (is(left, *ENumber) && is(right, *EBoolean))) && kind == StrictEquality ==> result1 && !result0
+//@   ensures boolean-number-loose: is(left, *EBoolean) && is(right, *ENumber) && left.(*EBoolean) != nil && right.(*ENumber) != nil && kind == LooseEquality ==>
+//@       result1 && result0 == fp.eq(right.(*ENumber).Value, left.(*EBoolean).Value ? 1.0 : 0.0)
+//@   ensures number-boolean-loose: is(left, *ENumber) && is(right, *EBoolean) && left.(*ENumber) != nil && right.(*EBoolean) != nil && kind == LooseEquality ==>
+//@       result1 && result0 == fp.eq(left.(*ENumber).Value, right.(*EBoolean).Value ? 1.0 : 0.0)
+//@   ensures nullish-vs-other-literal: (is(left, *EBoolean) || is(left, *ENumber) || is(left, *EBigInt) || is(left, *EString)) && (is(right, *ENull) || is(right, *EUndefined)) ==> result1 && !result0
+//@   ensures strings-by-code-units: is(left, *EString) && is(right, *EString) && left.(*EString) != nil && right.(*EString) != nil ==> result1
+//@   ensures only-literals: result1 ==> (is(left, *EInlinedEnum) || is(left, *ENull) || is(left, *EUndefined) || is(left, *EBoolean) || is(left, *ENumber) || is(left, *EBigInt) || is(left, *EString))
